@@ -234,6 +234,9 @@ class FockBackend(BaseFock):
             if len(modes) != len(set(modes)):
                 raise ValueError("The specified modes cannot be duplicated.")
 
+            # mode indices (which survive the deletion of other modes) -> positions in the state
+            modes = self._remap_modes(list(modes))
+
             num_modes = len(rho.shape) // 2
             if len(modes) > num_modes:
                 raise ValueError(
